@@ -54,7 +54,7 @@ def universe(tier, seed):
     sizes = [1, 2, 4, 8] if tier == "quick" else [1, 2, 3, 4, 6, 8, 12, 16]
     out = []
     for fam in SG.FAMILIES:
-        for n in sizes:
+        for n in (SG.SIZES.get(fam, {}).get(tier) or sizes):
             if fam in ("chain3", "diamond") and n > 10:
                 continue
             for p2 in (False, True):
@@ -228,7 +228,11 @@ def run(tier, seed):
         if evs is None:
             v.machinery_failure("no trace for %s: exit=%s %s %s" % (name, r["exit"], r.get("post_error", ""), (r.get("traceback") or "")[-600:]))
             continue
-        if r["exit"] not in ("ok", "TraceLimit"):
+        if r["exit"] in ("RecursionError", "MemoryError"):
+            # unbounded recursion / memory growth stopped by the interpreter's limit: the analysis did not terminate by itself
+            v.violation("diverges:%s" % tag, {"case": name, "why": "the run ended with %s: %s" % (r["exit"], (r.get("traceback") or "").strip().splitlines()[-1][:200] if r.get("traceback") else ""),
+                                             "traceback_tail": (r.get("traceback") or "")[-1500:], "files": src})
+        elif r["exit"] not in ("ok", "TraceLimit"):
             crashes += 1
             v.note("%s ended with %s (a crash is not a divergence; its trace up to that point is still judged)" % (name, r["exit"]))
         cfgk = post.get("config") or {}
@@ -238,7 +242,8 @@ def run(tier, seed):
         kinds = {}
         for e in evs:
             kinds[e["e"]] = kinds.get(e["e"], 0) + 1
-        stats.append({"case": name, "size_lines": job["_size"], "events": len(evs), "frames": post.get("frames"), "wall_s": r.get("wall_s"),
+        stats.append({"case": name, "size_lines": job["_size"], "events": len(evs), "frames": post.get("frames"), "wall_s": r.get("wall_s"), "states_p3": post.get("states_p3", -1),
+                      "_fam": job["_fam"], "_n": job["_n"], "_p2": job["_p2"],
                       "exit": r["exit"], "kinds": kinds, "_tag": tag, "_files": src})
     tot = run_tlc(cases, root, v)
     wdesign = worklist_design(root, v)
@@ -271,6 +276,18 @@ def run(tier, seed):
     missing = [c["name"] for c in cases if c["name"] not in seen]
     if missing and not v.machinery:
         v.machinery_failure("%d traces without a verdict, e.g. %s" % (len(missing), missing[:3]))
+    # growth families: work inside the steps, measured as abstract states produced
+    growth = []
+    for fam, factor in SG.GROWTH.items():
+        for p2 in (False, True):
+            pts = sorted((s["_n"], s["states_p3"], s) for s in stats if s["_fam"] == fam and s["_p2"] == p2 and s["states_p3"] and s["states_p3"] > 0)
+            if len(pts) >= 2:
+                (n1, a, _), (n2, b, s2) = pts[0], pts[-1]
+                growth.append({"family": fam, "p2": p2, "n": [n1, n2], "states": [a, b], "allowed_factor": factor})
+                if b > factor * a:
+                    n_bad += 1
+                    v.violation("state_growth:%s:%s" % (fam, "p2" if p2 else "p3"), {"family": fam, "sizes": [n1, n2], "abstract_states": [a, b], "allowed_factor": factor,
+                                                                                "why": "the abstract state space grew %.1fx from n=%d to n=%d" % (b / a, n1, n2), "files": s2["_files"]})
     for d, cs in sorted(drifts.items()):
         v.note("model drift (%s) in %d run(s), e.g. %s: Scheduler.tla no longer describes this step of the code" % (d, len(cs), cs[0]))
     # vacuity: the families must exercise the schedulers
@@ -289,7 +306,7 @@ def run(tier, seed):
         "statement_worklist_operations_replayed": wtot["ops"], "statement_worklist_trace_states": wtot["states"], "statement_worklist_drift": {k: len(x) for k, x in wdrift.items()},
         "samples": [{k: s[k] for k in ("case", "size_lines", "events", "frames", "wall_s", "exit")} for s in stats[:3]],
         "runs": len(jobs), "families": sorted(SG.FAMILIES) + ["hostile"], "event_totals": tk, "drift": {k: len(x) for k, x in drifts.items()},
-        "crashes_not_judged_as_divergence": crashes, "slack_factor": SLACK, "largest_run_events": max([s["events"] for s in stats] or [0]),
+        "crashes_not_judged_as_divergence": crashes, "growth_families": growth, "slack_factor": SLACK, "largest_run_events": max([s["events"] for s in stats] or [0]),
         "known_findings_hit": {k: len(x) for k, x in v.hits.items()}, "repo": C.repo_head(),
         "rule": "a trace = one full lian run (bottom-up if enabled, top-down, taint) of one member of a parameterised adversarial family",
     }
